@@ -10,6 +10,12 @@ import signal
 import sys
 import traceback
 
+import resource
+
+try:  # runaway allocations show up as MemoryError instead of taking the sandbox down
+    resource.setrlimit(resource.RLIMIT_AS, (3 << 30, 3 << 30))
+except (ValueError, OSError):
+    pass
 _proto_out = os.fdopen(os.dup(1), "w")
 _devnull = open(os.devnull, "w")
 os.dup2(_devnull.fileno(), 1)
